@@ -212,9 +212,15 @@ impl<'a> Planner<'a> {
             let all_inputs: SmallVec<[NodeId; 4]> =
                 self.graph.operator_dependencies(op_node).collect();
 
-            let all_inputs_available = all_inputs
-                .iter()
-                .all(|input_id| resolved_values.contains(*input_id));
+            // Values captured by the operator's subgraphs which are not nodes
+            // in this graph come from an outer graph. Those values are not
+            // available here.
+            let has_outer_captures = self.graph.has_outer_captures(op_node);
+
+            let all_inputs_available = !has_outer_captures
+                && all_inputs
+                    .iter()
+                    .all(|input_id| resolved_values.contains(*input_id));
 
             // Prune op if:
             //
